@@ -8,9 +8,9 @@ def c07 : Machine where
   σ := Option DL.Sys
   init := none
   step := DL.machineStep
-  μ := Unit
-  minit := ()
-  mstep := fun m _ _ => (m, none)
+  μ := DL.Mon
+  minit := {}
+  mstep := fun m op out => m.step op out
 
 /-- Coverage aid (not used by the check): the write/read task state after each op, as the output. -/
 def stateSummary : Option DL.Sys → String
